@@ -347,3 +347,11 @@ Print Assumptions c11_capture_bound_suffix.
 Theorem c11_never_again_after_ok : forall n l, once_after_ok (l_log (lrun n l)) = true.
 Proof. exact never_again_after_ok. Qed.
 Print Assumptions c11_never_again_after_ok.
+
+(* in the order the changes happened: without rejections, protocol violations and
+   deaths, what the pool has sent followed by what it still buffers is 0, 1, 2, ... *)
+Theorem c11_fifo_order : forall n l, forallb quiet l = true ->
+  exists k, l_next (lrun n l) = Z.of_nat k /\
+            sent_all (l_log (lrun n l)) ++ l_buf (lrun n l) = iota k.
+Proof. exact fifo_order. Qed.
+Print Assumptions c11_fifo_order.
